@@ -451,6 +451,26 @@ def main():
               % (vs, vs, bv, fv, n, n, n, n, vs, n, vs, n))
     M('empty-strings-table', "const string[] es = [\"\", \"\", \"\"];\nconst string[] after = [\"a\", \"\", \"bc\"];\nconst string z = \"\\0\\0\";\nconst string zz = \"\\0\";\n"
       "empty @is_you(int i) { write(es[i % 3]); write('|'); write(after[i % 3]); write('|'); write(z); write('|'); write(zz); sleep(z.length + zz.length + es.length); sleep(es[i % 3].length); }\n")
+    # tables whose encodings coincide although the tables differ: packed bools of different lengths, 0/1 bytes vs bools, in both orders
+    M('packed-bools-lengths', "const bool[] a3 = [true, false, true];\nconst bool[] a5 = [true, false, true, false, false];\nconst bool[] b9 = [true, true, false, false, true, false, false, false, true];\n"
+      "const bool[] b16 = [true, true, false, false, true, false, false, false, true, false, false, false, false, false, false, false];\n"
+      "empty @is_you(byte i) { sleep(a3.length); sleep(a5.length); sleep(b9.length); sleep(b16.length); sleep(a5[i % 5] is int); sleep(a3[i % 3] is int); sleep(b16[i % 16] is int); sleep(b9[i % 9] is int); "
+      "const bool[] l3 = [false, true, true]; const bool[] l6 = [false, true, true, false, false, false]; sleep(l3.length + l6.length * 10); sleep(l6[i % 6] is int); }\n")
+    for first in ('bytes', 'bools'):
+        decl = ["const byte[] digits = [1, 0, 1];", "const bool[] flags = [true, false, true];"]
+        if first == 'bools':
+            decl.reverse()
+        M('bytes01-vs-bools-' + first, "empty @is_you(int i) { %s %s write(digits[i %% 3]); sleep(flags[i %% 3] is int); sleep([true, false, true][i %% 3] is int); write(([1, 0, 1] is byte[])[i %% 3]); "
+          "sleep([1, 0, 1][i %% 3]); sleep(digits.length + flags.length); }\n" % tuple(decl))
+    # long strings: the length is a word (length, truthiness, last element, view as bytes)
+    for n in (255, 256, 257, 300, 513):
+        body = ''.join(chr(97 + (j * 7 + n) % 26) for j in range(n))
+        M('long-string-%d' % n, "const string gl = \"%s\";\nempty @is_you(int i) { string s = \"%s\"; sleep(s.length); sleep(gl.length); if (s) { write('t'); } else { write('f'); } write(s[%d]); write(gl[i %% 7 + %d]); "
+          "const byte[] v = s is byte[]; sleep(v.length); write(v[%d]); sleep((gl is bool) is int); }\n" % (body, body, n - 1, n - 7, n - 1))
+    # the byte view of a string that reaches the conversion in every way (literal, local, parameter, element, call result, global)
+    M('string-views', "const string[] names = [\"ab\", \"cde\"];\nstring gs = \"fgh\";\nstring pick(int v) { return names[v % 2]; }\nempty show(string p, int i) { const byte[] v = p is byte[]; write(v); write(v[i % p.length]); sleep(v.length); }\n"
+      "empty @is_you(int i) { string l = \"xyz\"; const byte[] a = l is byte[]; write(a); sleep(a.length); write(a[i % 3]); write(names[i % 2] is byte[]); write(pick(i) is byte[]); write(gs is byte[]); "
+      "show(l, i); show(names[1], i); show(\"lit\", i); const byte[] b = names[0] is byte[]; write(b[i % 2]); const byte[] c = pick(i + 1) is byte[]; sleep(c.length); write(c); }\n")
     mtasks = [case_to_task(c.with_(word=W, stack=96)) for c in multi for W in ([2, 4] if quick else [2, 3, 4, 8])]
     run_tasks(rep, mtasks, worker=check_case, limit=600, sample_every=3)
     # (C) CrossHair on the escaping function
